@@ -724,7 +724,14 @@ def _grids(w, n, spacings, offsets=(0, 1, 5), tensor=False):
     """Grids of n points with every combination of the given widths (sampled to <= 36) and a few offsets."""
     from fractions import Fraction as Fr
     import itertools
-    combos = list(itertools.product(spacings, repeat=n - 1))
+    if n - 1 > 6:
+        # threshold extension (run_jobs re-runs the suites on grids beyond a size threshold found in the code): the full
+        # product of widths is out of reach; uniform grids plus cyclic patterns of the widths
+        m = len(spacings)
+        combos = [tuple([h] * (n - 1)) for h in spacings[:3]] + [
+            tuple(spacings[(i * k + j) % m] for i in range(n - 1)) for (k, j) in ((1, 0), (1, 2), (2, 1), (3, 0))]
+    else:
+        combos = list(itertools.product(spacings, repeat=n - 1))
     if len(combos) > 36:
         combos = [c for i, c in enumerate(combos) if len(set(c)) == 1 or i % (len(combos) // 30) == 0]
     out = []
